@@ -13,9 +13,8 @@ What is proved, and what is not:
 * after a `#line`-family directive the reported line is `N + (line(tok) − line(directive))`, one more than C11 6.10.4p3
   (`C18_line_directive_characterised`; the full `C18_line_directive_Statement` is FALSE — known finding
   `C18-line-directive-off-by-one`); the file name part is right for all inputs (`C18_file_directive`);
-* `convert_universal_chars`, the last pass before `tokenize`, moves no byte to another line unless the file spells a
-  universal character name for U+000A (`C18_ucn_lines_kept`), so everything above holds for the text `tokenize` really
-  numbers (`C18_line_final_partial`);
+* `convert_universal_chars`, the last pass before `tokenize`, moves no byte to another line (`C18_ucn_lines_kept`), so
+  everything above holds for the text `tokenize` really numbers (`C18_line_final_partial`);
 * diagnostics, `.loc` and `.file` carry exactly these numbers (`C18_add_line_numbers`, `C18_diag_loc`, `C18_loc_records`),
   `__LINE__`/`__FILE__` use the outermost invocation token and synthesised tokens keep their template's line
   (`C18_macro_origin`).
@@ -95,20 +94,20 @@ example :
 theorem C18_text_ends_newline (bytes : List Nat) : (sourceText bytes).getLast? = some LF :=
   sourceText_last bytes
 
-/-- **C18 (`convert_universal_chars` keeps lines).**  If no universal character name of the text denotes U+000A (every
-    '\n' the pass writes is a copy of a '\n' it read — C11 6.4.3p2 forbids `\u000a`), then every byte of the text `tokenize`
-    numbers has the line number that the byte it came from had before the pass. -/
-theorem C18_ucn_lines_kept (bytes : List Nat) (h : noNewlineUCN (sourceText bytes) = true) (k : Nat) (e : Nat × Nat)
+/-- **C18 (`convert_universal_chars` keeps lines).**  Every byte of the text `tokenize` numbers has the line number that the
+    byte it came from had before the pass (the pass rewrites `\uXXXX` / `\UXXXXXXXX` into UTF-8 but leaves a name for U+000A
+    alone, so every '\n' it writes is a copy of one it read — for all texts). -/
+theorem C18_ucn_lines_kept (bytes : List Nat) (k : Nat) (e : Nat × Nat)
     (hk : (convertUCN (sourceText bytes))[k]? = some e) :
     lineNoOf (tokenizerText bytes) k = lineNoOf (sourceText bytes) e.2 := by
   unfold lineNoOf tokenizerText
-  rw [convertUCN_lines _ h k e hk]
+  rw [convertUCN_lines _ k e hk]
 
 /-- non-vacuity, and the pass does shorten the text: `"\u00e9"⏎⏎x` — `x` is at offset 10 of the file and of the text before the
     pass, at offset 6 after it, on line 3 in both -/
 example :
     let f := [34, 92, 117, 48, 48, 101, 57, 34, 10, 10, 120]
-    noNewlineUCN (sourceText f) = true ∧ posMap f 10 = 10 ∧ finalPos f 10 = 6 ∧
+    posMap f 10 = 10 ∧ finalPos f 10 = 6 ∧
     (convertUCN (sourceText f))[6]? = some (120, 10) ∧ lineNoFinal f 10 = 3 ∧ lineNoAt f 10 = 3 := by
   decide
 
@@ -129,16 +128,16 @@ theorem C18_line_partial (bytes : List Nat) (off : Nat) (h : tokenStart bytes of
 
 /-- **C18 (line numbers as `add_line_numbers` computes them, outside the known region).**  The same for the text after
     `convert_universal_chars`, which is the one `tokenize` numbers: if the byte at file offset `off` survives into that text
-    (`finalPos` finds it) and no universal character name denotes U+000A. -/
+    (`finalPos` finds it: it is not one of the bytes `\uXXXX` that were replaced). -/
 theorem C18_line_final_partial (bytes : List Nat) (off : Nat) (h : tokenStart bytes off = true)
-    (hs : spliceBefore bytes off = false) (hu : noNewlineUCN (sourceText bytes) = true)
+    (hs : spliceBefore bytes off = false)
     (hf : finalPos bytes off < (convertUCN (sourceText bytes)).length) :
     lineNoFinal bytes off = physLine bytes off := by
   unfold lineNoFinal
   generalize hidx : finalPos bytes off = idx at hf
   have hk : (convertUCN (sourceText bytes))[idx]? = some ((convertUCN (sourceText bytes))[idx]) :=
     List.getElem?_eq_getElem hf
-  rw [C18_ucn_lines_kept bytes hu _ _ hk]
+  rw [C18_ucn_lines_kept bytes _ _ hk]
   have he : ((convertUCN (sourceText bytes))[idx]).2 = posMap bytes off := by
     subst hidx
     have := List.findIdx_getElem (w := hf)
@@ -146,6 +145,14 @@ theorem C18_line_final_partial (bytes : List Nat) (off : Nat) (h : tokenStart by
     exact this
   rw [he]
   exact C18_line_partial bytes off h hs
+
+/-- non-vacuity: `/* \u000a */⏎x` — the comment spells a universal character name for a newline; `x` (offset 13) is found at
+    offset 13 of the tokenizer's text and is on line 2 -/
+example :
+    let f := [47, 42, 32, 92, 117, 48, 48, 48, 97, 32, 42, 47, 10, 120, 10]
+    tokenStart f 13 = true ∧ spliceBefore f 13 = false ∧ finalPos f 13 = 13 ∧
+    finalPos f 13 < (convertUCN (sourceText f)).length ∧ lineNoFinal f 13 = 2 := by
+  decide
 
 /-- non-vacuity: BOM, a blank line, a CR-only and a CR LF line end, a comment spanning two lines, a splice inside the
     comment and one at the end of an earlier logical line: `﻿⏎a\⏎b␍/* \⏎ */␍⏎x` — `x` at offset 19 is on line 6 -/
